@@ -136,6 +136,7 @@ Section Checks.
     unfold add_rcpt. destruct (check_rcpt script (g_checks cfg) r (s_rn s)) as [r1 [|]] eqn:E1; [|discriminate].
     destruct (check_rcpt script (s_checks cfg) r r1) as [r2 [|]] eqn:E2; [|discriminate].
     destruct (check_rcpt script (block_checks cfg b) r r2) as [r3 [|]] eqn:E3; [|discriminate].
+    destruct (existsb (N.eqb r) (mod_fail cfg)); [discriminate|].
     intro H; inversion H; subst. cbn.
     eapply ext_trans; [eapply check_rcpt_accept; exact E1|].
     eapply ext_trans; [eapply check_rcpt_accept; exact E2|eapply check_rcpt_accept; exact E3].
